@@ -95,6 +95,19 @@ func bindingScript(sh []byte, target []byte) []byte {
 	return s
 }
 
+// sanitize keeps printable ASCII and escapes everything else (error texts go into TAB separated lines)
+func sanitize(s string) string {
+	var sb strings.Builder
+	for i := 0; i < len(s) && i < 300; i++ {
+		if c := s[i]; c >= 32 && c < 127 {
+			sb.WriteByte(c)
+		} else {
+			fmt.Fprintf(&sb, "\\x%02x", c)
+		}
+	}
+	return sb.String()
+}
+
 func errClass(err error) string {
 	switch err {
 	case nil:
@@ -129,7 +142,7 @@ func errClass(err error) string {
 	if err.Error() == "unable to decrypt" {
 		return "err:decrypt-failed"
 	}
-	return "err:other:" + strings.ReplaceAll(strings.ReplaceAll(err.Error(), "\t", " "), "\n", " ")
+	return "err:other:" + sanitize(err.Error())
 }
 
 // ---------------------------------------------------------------- independent predicate
